@@ -14,7 +14,7 @@ Definition er_p {SA A} (g : SA -> A) : res (SA * st) -> res (A * toks) :=
   rmap (fun p => (g (fst p), toks_of (snd p))).
 Notation er_e := (er_p erase).
 
-Ltac useH H ts le := let E := fresh "E" in pose proof (H ts le) as E; cbn [map fst snd toks_of] in E; rewrite E; clear E.
+Ltac useH H ts le := let E := fresh "E" in pose proof (H ts le) as E; cbn [map fst snd toks_of erase] in E; rewrite E; clear E.
 Ltac red1 := cbn [bind rmap er_p fst snd map toks_of erase erase_arg erase_param erase_clause option_map].
 
 Section EPratt.
@@ -429,7 +429,7 @@ Section EBody.
   Lemma parse_test_erase : forall (ts : stoks) le, parse_test c I R (map fst ts) = er_e (sparse_test c SR (ts, le)).
   Proof.
     intros ts le. unfold parse_test, sparse_test. cbn [i_test pratt_impl]. absd D.
-    { call pe_top_erase ts le as e1 ts1 le1. apply continue_ternary_erase. }
+    { call (pe_top_erase (c_test c)) ts le as e1 ts1 le1. apply continue_ternary_erase. }
     dtk ts l0 r0 rest0 D. apply parse_lambda_erase.
   Qed.
 
@@ -443,7 +443,88 @@ Section EBody.
     call bitor_erase ts le as first ts1 le1. absd D. { reflexivity. } dtk ts1 l1 r1 rest1 D.
     pose proof (comma_loop_erase _ _ (is_expr_start c) bitor_erase (S (List.length ((TComma, (l1, r1)) :: rest1))) [first]
                   ((TComma, (l1, r1)) :: rest1) le1) as E.
-    rewrite map_length in *. cbn [map fst] in E. rewrite E. clear E. unfold er_cl.
+    cbn [List.length map fst] in *. rewrite map_length. rewrite E. clear E. unfold er_cl.
     destruct (scomma_loop _ _ _ _ _) as [[[items tr] [ts' le']]| | |]; red1; try reflexivity.
     destruct items as [|x [|y items]]; cbn [map]; destruct tr; reflexivity.
   Qed.
+
+  Lemma parse_argument_erase : forall (ts : stoks) le,
+    parse_argument c I R (map fst ts) = er_p erase_arg (sparse_argument c SR (ts, le)).
+  Proof.
+    intros ts le. unfold parse_argument, sparse_argument. cbn [i_reentry pratt_impl]. absd D.
+    { call parse_test_erase ts le as e1 ts1 le1. }
+    dtk ts l0 r0 rest0 D.
+    - absd D1.
+      { useH (continue_primary_erase (XId (l0, r0) n)) rest0 r0.
+        destruct (scontinue_primary SR (XId (l0, r0) n) (rest0, r0)) as [[e1 [ts1 le1]]| | |]; red1; try reflexivity.
+        rewrite !map_length. destruct (Nat.leb _ _); [|reflexivity].
+        call (cont_infix_erase (c_arg c) e1) ts1 le1 as e2 ts2 le2.
+        call (continue_ternary_erase e2) ts2 le2 as e3 ts3 le3. }
+      dtk rest0 l1 r1 rest1 D1. call parse_test_erase rest1 r1 as e1 ts1 le1.
+    - call parse_test_erase rest0 r0 as e1 ts1 le1.
+    - call parse_test_erase rest0 r0 as e1 ts1 le1.
+  Qed.
+
+  Lemma args_loop_erase : forall n acc (ts : stoks) le,
+    args_loop c I R n (map erase_arg acc) (map fst ts) = er_p (map erase_arg) (sargs_loop c SR n acc (ts, le)).
+  Proof.
+    induction n as [|n IH]; intros acc ts le; [reflexivity|]. cbn [args_loop sargs_loop].
+    call parse_argument_erase ts le as a ts1 le1. absd D. { fin. } dtk ts1 l1 r1 rest1 D.
+    absd D1. { apply (IH (a :: acc)). } dtk rest1 l2 r2 rest2 D1. fin.
+  Qed.
+
+  Lemma parse_args_erase : forall (ts : stoks) le,
+    parse_args c I R (map fst ts) = er_p (map erase_arg) (sparse_args c SR (ts, le)).
+  Proof.
+    intros ts le. unfold parse_args, sparse_args. absd D. { cbn [fst]. rewrite map_length. apply (args_loop_erase _ []). }
+    dtk ts l0 r0 rest0 D. reflexivity.
+  Qed.
+
+  Lemma parse_top_erase : forall strict (ts : stoks) le,
+    parse_top c I R strict (map fst ts) = rmap erase_stmt (sparse_top c SR strict (ts, le)).
+  Proof.
+    intros strict ts le. unfold parse_top, sparse_top.
+    useH parse_test_erase ts le. destruct (sparse_test c SR (ts, le)) as [[first [ts0 le0]]| | |]; red1; try reflexivity.
+    assert (EL : (match map fst ts0 with TComma :: _ => true | _ => false end) =
+                 (match ts0 with (TComma, _) :: _ => true | _ => false end)).
+    { destruct ts0 as [|[[] [? ?]] ?]; reflexivity. }
+    rewrite EL. clear EL. set (is_list := match ts0 with (TComma, _) :: _ => true | _ => false end). clearbody is_list.
+    assert (E1 : (if is_list then test_list_tail c (parse_test c I R) false (erase first) (map fst ts0) else Ok (erase first, map fst ts0))
+                 = er_e (if is_list then stest_list_tail c (sparse_test c SR) false (pos (ts, le)) first (ts0, le0) else Ok (first, (ts0, le0)))).
+    { destruct is_list; [|reflexivity]. apply test_list_tail_erase. exact parse_test_erase. }
+    rewrite E1. clear E1. destruct (if is_list then _ else _) as [[lhs [ts1 le1]]| | |]; red1; try reflexivity.
+    absd D. { reflexivity. } dtk ts1 l1 r1 rest1 D; try reflexivity.
+    - destruct (is_list && strict); reflexivity.
+    - useH (test_list_erase (sparse_test c SR) (parse_test c I R) false) rest1 r1; [|exact parse_test_erase].
+      destruct (stest_list c (sparse_test c SR) false (rest1, r1)) as [[rhs [ts2 le2]]| | |]; red1; try reflexivity.
+      destruct ts2 as [|? ?]; cbn [map]; [|reflexivity]. destruct (check_assign (erase lhs)); [|reflexivity].
+      cbn [rmap erase_stmt]. rewrite erase_snorm. reflexivity.
+  Qed.
+End EBody.
+
+Lemma go_erase : forall c fuel,
+  (forall (ts : stoks) le, r_test (go c (pratt_impl c) fuel) (map fst ts) = er_e (sr_test (sgo c fuel) (ts, le))) /\
+  (forall (ts : stoks) le, r_ortest (go c (pratt_impl c) fuel) (map fst ts) = er_e (sr_ortest (sgo c fuel) (ts, le))) /\
+  (forall (ts : stoks) le, r_exprlist (go c (pratt_impl c) fuel) (map fst ts) = er_e (sr_exprlist (sgo c fuel) (ts, le))) /\
+  (forall (ts : stoks) le, r_args (go c (pratt_impl c) fuel) (map fst ts) = er_p (map erase_arg) (sr_args (sgo c fuel) (ts, le))).
+Proof.
+  intros c. induction fuel as [|f (HT & HO & HE & HA)]; [repeat split; reflexivity|].
+  cbn [go sgo level slevel r_test r_ortest r_exprlist r_args sr_test sr_ortest sr_exprlist sr_args].
+  split; [|split; [|split]]; intros ts le.
+  - apply parse_test_erase; assumption.
+  - apply parse_or_test_erase; assumption.
+  - apply parse_expr_list_erase; assumption.
+  - apply parse_args_erase; assumption.
+Qed.
+
+(* (a) erasing the spans of the span-tracking parser's result gives exactly Parse.Model.parse *)
+Theorem parser_erase_spans : forall c fuel (ts : stoks),
+  rmap erase_stmt (sparse c fuel ts) = Parse.Model.parse c fuel (map fst ts).
+Proof.
+  intros c fuel ts. unfold sparse, Parse.Model.parse. symmetry.
+  destruct (go_erase c fuel) as (HT & HO & HE & HA). apply parse_top_erase; assumption.
+Qed.
+
+Theorem parser_erase_spans_test : forall c fuel (ts : stoks) le,
+  er_e (sparse_test_m c fuel (ts, le)) = parse_test_m c fuel (map fst ts).
+Proof. intros c fuel ts le. symmetry. apply (go_erase c fuel). Qed.
